@@ -6,6 +6,13 @@
 * `moduleDupSuffix`    — the `duplicate_name_suffix=` keyword of the `ModelResolver(...)` call inside
                          `Parser.__replace_duplicate_name_in_module` (read with `ast`).
 * `specialPrefix`, `emptyFieldName` — defaults of `FieldNameResolver` as seen on a default `ModelResolver()`.
+* `idPattern`, `idPatternFlags` — source text and flags of the compiled `reference.ID_PATTERN`, the regular
+                         expression that decides whether a `$ref` is an `$id`/anchor reference (looked up in the
+                         id registry) or a JSON pointer / file reference.
+* `idPatternUses`      — every place in `src/` where the name `ID_PATTERN` is read, as
+                         `file:scope:expression` (read with `ast`): WHICH method of the pattern is applied to WHAT
+                         is part of its meaning (`match` anchors at the start only).
+Anything that cannot be read gives the value `<unrecognised>`, which no reviewed value equals.
 """
 from __future__ import annotations
 
@@ -32,6 +39,54 @@ def module_dup_suffix() -> str:
     return ""
 
 
+def id_pattern() -> tuple[str, int]:
+    try:
+        from datamodel_code_generator import reference
+
+        pat = reference.ID_PATTERN
+        return str(pat.pattern), int(pat.flags)
+    except Exception:  # noqa: BLE001
+        return "<unrecognised>", 0
+
+
+def id_pattern_uses() -> list[str]:
+    """`file:scope:expression` for every read of the name `ID_PATTERN` below src/ (imports of the name included)"""
+    root = REPO / "src" / "datamodel_code_generator"
+    out: list[str] = []
+    for path in sorted(root.rglob("*.py")):
+        text = path.read_text(encoding="utf-8")
+        if "ID_PATTERN" not in text:
+            continue
+        rel = path.relative_to(root).as_posix()
+        try:
+            tree = ast.parse(text)
+        except SyntaxError:
+            out.append(f"{rel}:<unrecognised>")
+            continue
+        parent: dict = {}
+        for node in ast.walk(tree):
+            for child in ast.iter_child_nodes(node):
+                parent[child] = node
+        for node in ast.walk(tree):
+            if isinstance(node, ast.alias) and node.name == "ID_PATTERN":
+                out.append(f"{rel}:import" + (f" as {node.asname}" if node.asname else ""))
+            if not (isinstance(node, (ast.Name, ast.Attribute)) and isinstance(node.ctx, ast.Load)):
+                continue
+            if (node.id if isinstance(node, ast.Name) else node.attr) != "ID_PATTERN":
+                continue
+            # the expression the pattern is used in: `ID_PATTERN.<method>(args)` when it is called, else the parent
+            expr = parent.get(node, node)
+            if isinstance(expr, ast.Attribute) and isinstance(parent.get(expr), ast.Call) and parent[expr].func is expr:
+                expr = parent[expr]
+            scope, cur = [], node
+            while cur in parent:
+                cur = parent[cur]
+                if isinstance(cur, (ast.FunctionDef, ast.AsyncFunctionDef, ast.ClassDef)):
+                    scope.append(cur.name)
+            out.append(f"{rel}:{'.'.join(reversed(scope)) or '<module>'}:{ast.unparse(expr)}")
+    return sorted(out)
+
+
 def values() -> dict:
     from datamodel_code_generator import reference
     from datamodel_code_generator.reference import ModelResolver, ModelType
@@ -44,7 +99,15 @@ def values() -> dict:
         "moduleDupSuffix": module_dup_suffix(),
         "specialPrefix": fr.special_field_name_prefix or "",
         "emptyFieldName": fr.empty_field_name,
+        "idPattern": id_pattern()[0],
+        "idPatternFlags": id_pattern()[1],
+        "idPatternUses": id_pattern_uses(),
     }
+
+
+def _comment(text: str) -> str:
+    """text that is safe inside a Lean block comment (they nest)"""
+    return text.replace("-/", "- /").replace("/-", "/ -").replace("\n", " ")
 
 
 def generate() -> str:
@@ -56,5 +119,13 @@ def generate() -> str:
     out.append("]")
     for name in ("singularNameSuffix", "moduleDupSuffix", "specialPrefix", "emptyFieldName"):
         out.append(f"def {name} : List Char := {lean_str(v[name])} /- {v[name]!r} -/")
+    out.append("/-- `reference.ID_PATTERN.pattern`: the regular expression that recognises an `$id`/anchor reference -/")
+    out.append(f"def idPattern : List Char := {lean_str(v['idPattern'])} /- {_comment(repr(v['idPattern']))} -/")
+    out.append("/-- `reference.ID_PATTERN.flags` (32 = `re.UNICODE`, what `re.compile` gives a `str` pattern without flags) -/")
+    out.append(f"def idPatternFlags : Nat := {v['idPatternFlags']}")
+    out.append("/-- every read of the name `ID_PATTERN` in src/: `file:scope:expression` -/")
+    out.append("def idPatternUses : List (List Char) := [")
+    out.append(",\n".join(f"  {lean_str(u)} /- {_comment(u)} -/" for u in v["idPatternUses"]))
+    out.append("]")
     out += ["", "end Dcg.Gen.ResolverTables", ""]
     return "\n".join(out)
